@@ -32,10 +32,10 @@ theorem doProb_marginal (M : Scm) (G : MG Name) (X Y Y' : List Name) (hsub : ∀
 /-- marginals of identifiable effects are identifiable -/
 theorem identifiable_mono {G : MG Name} {X Y Y' : List Name} (hsub : ∀ y ∈ Y', y ∈ Y) (h : Identifiable G X Y) :
     Identifiable G X Y' := by
-  intro M₁ M₂ h₁ h₂ he σ
+  intro M₁ M₂ h₁ h₂ he σ hσ
   rw [doProb_marginal M₁ G X Y Y' hsub, doProb_marginal M₂ G X Y Y' hsub]
-  rw [sumVars_card_congr _ (fun x hx => he.card_eq x (List.mem_filter.mp hx).1)]
-  exact sumVars_congr _ _ (h M₁ M₂ h₁ h₂ he) σ
+  rw [← sumVars_card_congr _ (fun x hx => he.card_eq x (List.mem_filter.mp hx).1)]
+  exact sumVars_congr_inRange M₁.card G.nodes _ (h M₁ M₂ h₁ h₂ he) σ hσ
 
 theorem not_identifiable_mono {G : MG Name} {X Y Y' : List Name} (hsub : ∀ y ∈ Y', y ∈ Y)
     (h : ¬ Identifiable G X Y') : ¬ Identifiable G X Y := fun h' => h (identifiable_mono hsub h')
